@@ -18,7 +18,9 @@ FAMILY = {
     "python/utils.py": ["C04", "C05", "C10", "C13"],
     "validators.py": ["C12", "C11"],
     "model.py": ["C18", "C16"],
-    "__main__.py": ["C18"],
+    "__main__.py": ["C18", "C05"],
+    "noxfile.py": ["C05"],
+    "converters.py": ["C19", "C01", "C10"],
     "rust": ["C07", "C05"],
     "dotnet": ["C08"],
     "testdata": ["C17", "C16"],
